@@ -1933,3 +1933,9 @@ mod verif_hooks {
         }
     }
 }
+
+/// Verification hook (compiled only with `--cfg stam_verif`): the temporary identifier parser.
+#[cfg(stam_verif)]
+pub fn verif_resolve_temp_id(id: &str) -> Option<usize> {
+    resolve_temp_id(id)
+}
